@@ -170,6 +170,21 @@ Theorem bert_reset_refuted :
 Proof. exact bert_reset_refuted_lemma. Qed.
 Print Assumptions bert_reset_refuted.
 
+(* load_state_dict without error: every entry of the rebuilt module carries the original's value *)
+Theorem load_no_error_faithful : forall (A : Type) (src dst : named A) k p,
+  load_error src dst = false -> lookup k dst = Some p ->
+  exists sp, lookup k src = Some sp /\ p_size sp = p_size p /\ lookup k (load_params src dst) = Some sp.
+Proof. exact @load_no_error_faithful_lemma. Qed.
+Print Assumptions load_no_error_faithful.
+
+(* ... whereas clone() swallows the error: with a mismatching signature (init_dict out of step with the
+   network) it silently returns freshly initialised values, where reinit_from_mutated fails loudly *)
+Theorem clone_swallow_refuted :
+  exists self fresh : named nat, NoDup (map fst self) /\ load_error self fresh = true /\
+    clone self fresh = fresh /\ clone self fresh <> self /\ reinit_from_mutated self fresh = None.
+Proof. exact clone_swallow_refuted_lemma. Qed.
+Print Assumptions clone_swallow_refuted.
+
 (* ---- non-vacuity ---------------------------------------------------------------------------- *)
 Definition ex_old : named nat :=
   [("l.weight"%string, {| p_size := [2;2]; p_data := Dim [Dim [Sc 1; Sc 2]; Dim [Sc 3; Sc 4]] |});
